@@ -18,7 +18,7 @@ def run(chk, replay=None):
     chk.assumptions += [
         "'refused up front' as in DESIGN 3/C03: above 512 bits (after trial division) a panic located in "
         "src/arith_montgomery.rs (ZmodN::new size assertion) with no sub-algorithm entered before it, or any clean answer",
-        "deadline 100 s per call in the quick tier (every driven call normally takes < 7 s, all but ~4 of them < 1 s)",
+        "deadline 600 s per call in the quick tier (every driven call normally takes < 10 s, all but ~20 of them < 1 s; a loaded machine must not turn a slow call into a reported hang)",
         "the ymqs binary is run on the 404 invocation classes of CliShapes.tla only (numbers <= 128 bits, near-limit q*P, "
         "oversize and malformed arguments); its declared refusals are panics located in src/bin/ymqs.rs",
     ]
